@@ -119,8 +119,8 @@ def normMsg (msg : String) : String :=
 def parseOp (s : St) (toks : List String) : Option Op :=
   match toks.headD "" with
   | "start" => some .start
-  | "stop" => some .stop
-  | "verify" => some .verify
+  | "stop" => some (if kvStr toks "hold" = "1" then .stopHeld else .stop)
+  | "verify" => some (if kvStr toks "hold" = "1" then .verifyHeld else .verify)
   | "obs" | "announce" | "diskcheck" | "magnet" | "crashcheck" | "reload" | "addtracker" | "dialhold" => some .nop
   | "persist" => some .persist
   | "waitstop" => some .waitstop
@@ -508,6 +508,8 @@ def stepDriver (d : DSt) (op implObs : String) : DSt × String × List String :=
       let c04trk :=
         (if toks.headD "" = "waitstop" && implWorkers.contains "stopann" then ["C04 stop-does-not-reach-stopped-within-timeout"] else []) ++
         (if toks.headD "" = "waitstop" && sws && implSt = "Stopped" && st2.status ≠ .stopped then ["C04 start-dropped-while-stopping"] else []) ++
+        (if toks.headD "" = "stop" && implSt ≠ "Stopped" && implSt ≠ "Stopping" && implSt ≠ "" then
+          [s!"C04 stop-command-did-not-stop st={implSt}"] else []) ++
         (if vp && (implSt = "Downloading" || implSt = "Seeding") then [s!"C04 verification-request-did-not-end-stopped st={implSt}"] else [])
       let sws := if toks.headD "" = "waitstop" then false else sws
       ({ s := some st2, parked := parked, implDials := implDials, knownPeers := known, trk := trk, startWhileStopping := sws, verifyPending := vp, noListen := noListen, looseDials := looseDials },
